@@ -555,11 +555,14 @@ func (dsc *dataStoreCommand) bitfieldWrite(keyName string, ops []*bitfieldOp) (o
 			output.data = wrongTypeError
 			return
 		}
-		if len(strBytes) < length {
-			expanded := make([]byte, length)
-			copy(expanded, strBytes)
-			strBytes = expanded
+		// always work on a copy: readers (GETBIT, BITCOUNT, BITPOS, DUMP) look at the stored bytes after
+		// releasing the lock, so a published byte array must never be modified in place
+		if len(strBytes) > length {
+			length = len(strBytes)
 		}
+		expanded := make([]byte, length)
+		copy(expanded, strBytes)
+		strBytes = expanded
 		expiration = sk.expiresAt
 	} else {
 		// make a brand new byte array
